@@ -1,3 +1,24 @@
 import Uflow.Props.C08
 open Uflow.Props.C08
 #print axioms C08_u32_lt
+#print axioms C08_client_stream_monitor
+#print axioms C08_client_stream
+#print axioms C08_client_quiet_after_terminal
+#print axioms C08_client_handleFrame_cases
+#print axioms C08_client_handleEvents_cases
+#print axioms C08_client_stepPhase_cases
+#print axioms C08_server_phase_conn_iff
+#print axioms C08_server_wf_init
+#print axioms C08_server_stream
+#print axioms C08_server_stream_general
+#print axioms C08_server_step
+#print axioms C08_server_handleSyn
+#print axioms C08_server_handleHsAck
+#print axioms C08_server_handleDisconnect
+#print axioms C08_server_handleDisconnectAck
+#print axioms C08_server_handleTraffic
+#print axioms C08_server_handleFrame
+#print axioms C08_server_handleTimer
+#print axioms C08_server_activeTimeoutStep
+#print axioms C08_server_stepActiveStep
+#print axioms C08_server_drop
